@@ -19,7 +19,7 @@ LEAN_TARGETS = ['DeepModel.Props.C12']
 AUDIT = 'DeepModel/Audit/C12.lean'
 DRIVER = 'DeepModel/Driver/C12.lean'
 BUDGET = {'quick': 800, 'thorough': 8000}
-RULE = ('first EVERY lock-respecting interleaving of two apply tasks over their four regions (up to the lock / lock + '
+RULE = ('(ts_nanos of the answers is arbitrary, not monotone) first EVERY lock-respecting interleaving of two apply tasks over their four regions (up to the lock / lock + '
         'read / listener argument / install) with the second change (update or registration) at every point: 2 x 21 '
         'schedules; then histories of 1..12 ops (thorough ..30): poll answers (UPDATE with 0..3 tracepoints of which some cannot be '
         'interpreted; NO_CHANGE carrying stray data; answer of a type outside the enum; response whose conversion '
